@@ -256,6 +256,10 @@ func (c *compiler) identity(y *Identity) error {
 		}
 		identity, found := m.Identities()[ident]
 		if !found {
+			// a submodule sees the identities of its module and of the other submodules
+			identity, found = belongingModule(m).Identities()[ident]
+		}
+		if !found {
 			return errors.New(SchemaPath(y) + " - " + baseId + " identity not found")
 		}
 		y.base = append(y.base, identity)
@@ -482,8 +486,13 @@ func (c *compiler) findTypedef(y *Type, parent Definition, qualifiedIdent string
 				// issue #50 - submodules can reference types in parent and in any
 				// other submodule w/o prefix
 				if m, isModule := p.(*Module); isModule && m.belongsTo != nil {
-					// nil for a module that says belongs-to: it is nobody's submodule
-					p, _ = m.Parent().(Definition)
+					// everything the submodules define ends up in the module, however deep the
+					// includes go. nil for a module that says belongs-to: it is nobody's submodule
+					if top := belongingModule(m); top != nil && top != m {
+						p = top
+					} else {
+						p = nil
+					}
 				}
 			}
 		}
